@@ -17,6 +17,10 @@ META["technique"] += "; " + 'generic pack G on the anchored files (optional-flag
 MISC = "pkgcore.ebuild.misc"
 
 
+META["technique"] += "; filter rule on render_pkg (every applied chunk passed `.match(pkg)`)"
+META["level"] += " (R8) ChunkedDataDict.render_pkg and PayloadDict.render_pkg apply only chunks filtered by `<restriction>.match(pkg)`, whichever list they come from."
+
+
 def run(ctx):
     P = ctx.program
     ctx.explanation = META["level"]
@@ -155,6 +159,30 @@ def run(ctx):
                   f"glob such as dev-libs/*) is folded into the collapsed global chunk and its flags apply to packages it does not match", node=st)
     ctx.floor("R7", 1)
 
+    # ---- R8 a package is only given chunks whose restriction matches it -----------------------------------------------
+    # (also the "global" list holds keyed chunks: category / package globs land there)
+    for q in ("ChunkedDataDict.render_pkg", "PayloadDict.render_pkg"):
+        rp = P.func(MISC, q)
+        pkgp = rp.params()[1]
+        appl = [c for c in A.calls(rp.node) if (dotted(c.func) or "") in ("incremental_chunked", "incremental_expansion")]
+        ctx.require(appl, f"{q}: the application of the chunks (incremental_chunked / incremental_expansion) not found")
+        for c in appl:
+            data = c.args[1] if dotted(c.func) == "incremental_chunked" and len(c.args) > 1 else (c.args[0] if c.args else None)
+
+            def filtered(e, depth=0):
+                if e is None or depth > 3:
+                    return False
+                if isinstance(e, ast.Name):
+                    ds = [v for t, v, _ in A.assignments(rp.node, e.id)]
+                    return bool(ds) and all(filtered(v, depth + 1) for v in ds)
+                comps = [n for n in ast.walk(e) if isinstance(n, (ast.GeneratorExp, ast.ListComp))]
+                return any(any((A.call_attr(x) == "match" and x.args and A.unparse(x.args[0]) == pkgp) for i_ in g_.ifs for x in ast.walk(i_) if isinstance(x, ast.Call))
+                           for cmp_ in comps for g_ in cmp_.generators)
+            ctx.check("R8", rp, filtered(data), f"chunks-filtered-by-match:{q.split('.')[0]}", f"{q}: every chunk applied was tested with `.match({pkgp})`",
+                      f"{q} applies `{A.unparse(data)[:60] if data is not None else '?'}` without testing each chunk's restriction against the package: keyed chunks kept in the "
+                      f"global list (category / package globs) are applied to packages they do not match", node=c)
+    ctx.floor("R8", 2)
+
 
 MUTANTS = [
     {"name": "splitter-slice-from-zero", "file": "src/pkgcore/ebuild/domain.py", "old": "                yield from tokens[start_idx:idx]", "new": "                yield from tokens[:idx]", "rule": "R2"},
@@ -165,3 +193,7 @@ MUTANTS = [
     {"name": "group-reset-lost", "file": "src/pkgcore/ebuild/domain.py", "old": "                    if flag == \"-*\":\n                        buffer.clear()\n                        yield f\"-{use_expand}_*\"\n                        continue", "new": "                    if flag == \"-*\":\n                        buffer.clear()\n                        continue", "rule": "R2"},
 ]
 TWINS = []
+
+MUTANTS += [
+    {"name": "payload-render-unfiltered", "file": "src/pkgcore/ebuild/misc.py", "old": "            item.data for item in items if item.restrict.match(pkg)\n", "new": "            item.data for item in items\n", "rule": "R8"},
+]
